@@ -89,3 +89,28 @@ pub fn update_active_blob(inner: &mut InnerRef) -> (r: Result<(), VErr>) ensures
 // tokio::spawn(async move { .. }): a handle of a running task
 #[verifier::external_body]
 pub fn spawn_task() -> (r: JoinHandle) { unimplemented!() }
+
+// tokio::sync::mpsc::Sender<Msg> (bounded channel). `queued()`: the messages the channel has accepted so
+// far, in order (ghost); tokio delivers every accepted message to the receiver in this order (TRUSTED).
+#[verifier::external_body]
+pub struct Sender { _p: u8 }
+pub struct SendError { pub m: Msg }
+impl Sender {
+    pub uninterp spec fn queued(&self) -> Seq<Msg>;
+    // the receiving half was dropped / closed (the worker has stopped)
+    pub uninterp spec fn rx_closed(&self) -> bool;
+    // `send(msg).await`: waits for a free slot; fails ONLY when the receiver is gone
+    #[verifier::external_body]
+    pub fn send(&mut self, msg: Msg) -> (r: Result<(), SendError>)
+        ensures r is Ok ==> final(self).queued() == old(self).queued().push(msg),
+            r is Err ==> old(self).rx_closed() && final(self).queued() == old(self).queued(),
+    { unimplemented!() }
+    // `try_send(msg)`: never waits; fails when the receiver is gone OR the queue is full
+    #[verifier::external_body]
+    pub fn try_send(&mut self, msg: Msg) -> (r: Result<(), SendError>)
+        ensures r is Ok ==> final(self).queued() == old(self).queued().push(msg),
+            r is Err ==> final(self).queued() == old(self).queued(),
+    { unimplemented!() }
+}
+#[verifier::external_body]
+pub fn optype_clone(o: &OperationType) -> (r: OperationType) ensures r == *o { unimplemented!() }
